@@ -67,6 +67,13 @@ class Prop(PropBase):
         'purity (no mutation) holds of the Gallina model by construction; for the real code it is '
         'checked only on the generated cases by before/after snapshots (value and identity)',
         'CPython str.format tokenisation is modelled, not derived (see C08)',
+        'Tie B (tools/py2coq_c08.py -> Gen/GenC08.v, C09_source_*_is_model): the type dispatch of '
+        'RecursiveFormatter._get_formatted_iterable is re-translated from the current source and proved '
+        'to be one step of fmt_iter (leaf identity, list / tuple / set / dict element-wise, keys and '
+        'values); assumed: isinstance over the value universe is the table classes_of of '
+        'Model/FormatSrc.v, obj.__class__(items) rebuilds the same kind of container (subclasses are '
+        'outside the value universe), the memo-by-id() cache is transparent, and the primitives listed '
+        'under C08',
     ]
 
     def generate(self, rng, n, tier):
